@@ -94,6 +94,13 @@ class Who:
                     it = n.iter
                     base = it.func.value if isinstance(it, ast.Call) and isinstance(it.func, ast.Attribute) and it.func.attr in ("items", "values") else it
                     bw = self.who(base)
+                    if not bw and isinstance(n.target, ast.Name):
+                        # a python collection OF handles (tuple / generator of nodes, possibly bound on several paths): the loop
+                        # variable denotes what the elements denote
+                        elems = self._elements(it)
+                        ws_ = [self.who(x) for x in elems] if elems else []
+                        if ws_ and all(ws_) and self._set(n.target.id, set().union(*ws_)):
+                            changed = True
                     if bw and not isinstance(base, (ast.List, ast.Tuple)):
                         names = [t.id for t in ast.walk(n.target) if isinstance(t, ast.Name)]
                         if isinstance(it, ast.Call) and it.func.attr == "items" and len(names) == 2:
@@ -102,6 +109,19 @@ class Who:
                             names = []  # iterating a group yields its keys
                         for nm in names:
                             if self._set(nm, {"member-of:" + unparse(base)[:40]}):
+                                changed = True
+                if isinstance(n, ast.Assign) and len(n.targets) == 1 and isinstance(n.targets[0], (ast.Tuple, ast.List)) \
+                        and all(isinstance(t, ast.Name) for t in n.targets[0].elts):
+                    # `handle, name = target`: a record / tuple that carries a node together with the key to use in it
+                    comps = self._components(n.value)
+                    if comps and all(len(c) == len(n.targets[0].elts) for c in comps):
+                        for i, t in enumerate(n.targets[0].elts):
+                            ws_ = [self.who(c[i]) for c in comps]
+                            if all(ws_) and self._set(t.id, set().union(*ws_)):
+                                changed = True
+                            us_ = {self.uid_expr(c[i]) for c in comps}
+                            if len(us_) == 1 and None not in us_ and self.uid_of.get(t.id) != next(iter(us_)):
+                                self.uid_of[t.id] = next(iter(us_))
                                 changed = True
                 if isinstance(n, ast.Assign) and len(n.targets) == 1 and isinstance(n.targets[0], ast.Name):
                     name = n.targets[0].id
@@ -114,6 +134,83 @@ class Who:
                     w = self.who(v)
                     if w and self._set(name, w):
                         changed = True
+
+    # ---- python-level values that carry handles: collections of nodes, records (node, key)
+    def _values_of(self, e, _seen=()):
+        """the expressions a local may stand for (every binding, None left out); the expression itself when it is not a local"""
+        if isinstance(e, ast.Name) and e.id not in self.params and e.id not in _seen:
+            vals = [a.value for a in ast.walk(self.fn.node) if isinstance(a, ast.Assign) and len(a.targets) == 1 and isinstance(a.targets[0], ast.Name) and a.targets[0].id == e.id]
+            if vals:
+                out = []
+                for v in vals:
+                    if isinstance(v, ast.Constant) and v.value is None:
+                        continue
+                    out += self._values_of(v, _seen + (e.id,))
+                return out
+        return [e]
+
+    def _elements(self, e):
+        """element expressions of a python collection (literal, generator, wrapped in iter()/tuple()/..), else None"""
+        out = []
+        for v in self._values_of(e):
+            if isinstance(v, (ast.Tuple, ast.List, ast.Set)):
+                out += list(v.elts)
+            elif isinstance(v, (ast.GeneratorExp, ast.ListComp, ast.SetComp)):
+                out.append(v.elt)
+            elif isinstance(v, ast.Call) and isinstance(v.func, ast.Name) and v.func.id in ("iter", "tuple", "list", "reversed", "sorted", "set") and len(v.args) == 1:
+                sub = self._elements(v.args[0])
+                if sub is None:
+                    return None
+                out += sub
+            else:
+                return None
+        return out or None
+
+    def _record_fields(self, call):
+        """field names of the record class a constructor call makes (NamedTuple / dataclass: annotated names of the class body)"""
+        if self.project is None or not isinstance(call.func, (ast.Name, ast.Attribute)):
+            return None
+        nm = call.func.id if isinstance(call.func, ast.Name) else call.func.attr
+        r = self.project.resolve_name(self.fn.module, nm)
+        if not r or r[0] != "class" or r[1].node is None:
+            return None
+        return [st.target.id for st in r[1].node.body if isinstance(st, ast.AnnAssign) and isinstance(st.target, ast.Name)] or None
+
+    def _components(self, e):
+        """[[component expressions] per value the expression may take]: tuple literals and record constructor calls"""
+        out = []
+        for v in self._values_of(e):
+            if isinstance(v, (ast.Tuple, ast.List)):
+                out.append(list(v.elts))
+            elif isinstance(v, ast.Call):
+                fields = self._record_fields(v)
+                if fields is None:
+                    return None
+                comp = dict(zip(fields, v.args))
+                comp.update({k.arg: k.value for k in v.keywords if k.arg})
+                if set(comp) != set(fields):
+                    return None
+                out.append([comp[f] for f in fields])
+            else:
+                return None
+        return out or None
+
+    def _field(self, e):
+        """component expressions of `<record>.<field>`, else None"""
+        vals = self._values_of(e.value)
+        out = []
+        for v in vals:
+            if not isinstance(v, ast.Call):
+                return None
+            fields = self._record_fields(v)
+            if not fields or e.attr not in fields:
+                return None
+            comp = dict(zip(fields, v.args))
+            comp.update({k.arg: k.value for k in v.keywords if k.arg})
+            if e.attr not in comp:
+                return None
+            out.append(comp[e.attr])
+        return out or None
 
     def _set(self, name, w):
         cur = self.env.setdefault(name, set())
@@ -132,6 +229,11 @@ class Who:
             return self.uid_expr(self.sa_defs[e.id])
         if isinstance(e, ast.Attribute) and e.attr == "uid":
             return unparse(e.value)
+        if isinstance(e, ast.Attribute) and isinstance(e.value, ast.Name) and e.value.id not in self.params:
+            comps = self._field(e)
+            if comps:
+                us_ = {self.uid_expr(c) for c in comps}
+                return next(iter(us_)) if len(us_) == 1 else None
         if isinstance(e, ast.Name):
             return self.uid_of.get(e.id)
         if isinstance(e, ast.Call) and unparse(e.func) in ("as_str_if_uuid", "str") and len(e.args) == 1:
@@ -171,6 +273,11 @@ class Who:
             return self.who(e.value)
         if isinstance(e, ast.Attribute) and e.attr in ("attrs", "parent", "file"):
             return self.who(e.value)
+        if isinstance(e, ast.Attribute) and isinstance(e.value, ast.Name):
+            comps = self._field(e)
+            if comps:
+                ws_ = [self.who(c) for c in comps]
+                return set().union(*ws_) if all(ws_) else set()
         if isinstance(e, ast.Call):
             f = e.func
             if isinstance(f, ast.Name) and f.id in ("list", "tuple", "sorted") and len(e.args) == 1:
@@ -275,7 +382,8 @@ def rule_prov(ctx) -> RuleResult:
     consts = Consts(p, ctx.view)
     summaries = _summaries(ctx, W)
     n_sites = 0
-    for name, fn0 in W.methods.items():
+    # (the functions of the writer's module count as writer functions: helpers that are handed a node live there as well)
+    for name, fn0 in list(W.methods.items()) + [(n, f) for n, f in (W.module.functions.items() if W.module is not None else []) if n not in W.methods]:
         fn = ctx.view(fn0)
         who = Who(fn, p)
         allowed = allowed_exprs(who.params) | ancestor_locals(fn, who.params)
@@ -323,13 +431,15 @@ def rule_prov(ctx) -> RuleResult:
             if in_loop:
                 res.find("H5Writer", name, f"{what} inside a loop over a handle's members", where,
                          "the writer mutates nodes while iterating the members of a container: every member is touched, not only the target")
-        # calls to other writer functions
-        for c in ast.walk(fn.node):
-            if isinstance(c, ast.Call) and isinstance(c.func, ast.Attribute) and chain(c.func.value) in (["cls"], ["H5Writer"]) and len(c.args) >= 2:
-                callee = W.methods.get(c.func.attr)
-                if callee is None or c.func.attr in ("create_dataset", "fetch_handle"):
+        # calls to other writer functions (written `cls.f(..)` / `H5Writer.f(..)`, or picked from a table of them)
+        from ._c09_summary import writer_callees
+
+        for c, callee in [(c, m) for c in ast.walk(fn.node) if isinstance(c, ast.Call) and len(c.args) >= 2 for m in writer_callees(c, W, fn.node)]:
+            if True:
+                cname = callee.name
+                if cname in ("create_dataset", "fetch_handle"):
                     continue
-                if c.func.attr.startswith("_") and not c.func.attr.startswith("__"):
+                if cname.startswith("_") and not cname.startswith("__"):
                     # a private helper that could not be expanded in place: it works on what it is handed (its own
                     # body is analysed like every other writer function: mutations only on its handle / uid parameters)
                     continue
@@ -358,18 +468,24 @@ def rule_prov(ctx) -> RuleResult:
                                     ok = True
                     if not ok and isinstance(arg, ast.Constant):
                         ok = True  # None / a literal default: no entity is designated
-                    res.inst(f"H5Writer.{name}:{c.lineno} -> H5Writer.{c.func.attr}(…, {txt[:30]})", ok=ok)
+                    res.inst(f"H5Writer.{name}:{c.lineno} -> H5Writer.{cname}(…, {txt[:30]})", ok=ok)
                     if not ok:
                         res.find("H5Writer", name, f"writer call on {txt[:40]}", f"{fn.module.relpath}:{c.lineno}",
-                                 f"H5Writer.{name} hands `{txt[:40]}` to H5Writer.{c.func.attr}: not its target, parent, type, child or property group")
+                                 f"H5Writer.{name} hands `{txt[:40]}` to H5Writer.{cname}: not its target, parent, type, child or property group")
     if n_sites < 40:
         raise AnalysisError(f"C09.PROV: only {n_sites} HDF5 mutation sites recognised in the writer (floor 40)")
     # the Workspace-side callers that visit several entities
     ws = p.cls("Workspace")
     multi = []
+
+    def _writes(c):
+        return isinstance(c, ast.Call) and isinstance(c.func, ast.Attribute) and c.func.attr == "_io_call" and c.args and unparse(c.args[0]).startswith("H5Writer.")
+
+    # private methods that hand a request to the writer (`self._delete_from_file(uid, container)`): calling one is writing
+    forwarders = {n for n, f in ws.methods.items() if n.startswith("_") and not n.startswith("__") and any(_writes(c) for c in ast.walk(f.node))}
     for name, fn in ws.methods.items():
-        for lp in [n for n in ast.walk(fn.node) if isinstance(n, ast.For)]:
-            if any(isinstance(c, ast.Call) and isinstance(c.func, ast.Attribute) and c.func.attr == "_io_call" and c.args and unparse(c.args[0]).startswith("H5Writer.")
+        for lp in [n for n in ast.walk(ctx.view(fn).node) if isinstance(n, ast.For)]:
+            if any(_writes(c) or (isinstance(c, ast.Call) and isinstance(c.func, ast.Attribute) and c.func.attr in forwarders and chain(c.func.value) in (["self"], [fn.params[0]] if fn.params else ["self"]))
                    for s in lp.body for c in ast.walk(s)):
                 multi.append(name)
     documented = {"remove_none_referents", "remove_children"}
@@ -472,7 +588,13 @@ def rule_idemp(ctx) -> RuleResult:
     if not ok:
         res.find("H5Writer", "write_entity", "already-stored branch mutates the file", we.where,
                  "re-saving a stored entity (every close()) rewrites its node")
-    for fn, limit_to in ((we, T), (wp, None), (se, None)):
+    from ._c09_summary import writer_callees
+
+    summaries = _summaries(ctx, W)
+    todo = [(we, T), (wp, None), (se, None)]
+    done = {we.name, wp.name, se.name}
+    while todo:
+        fn, limit_to = todo.pop(0)
         gg = CFG(fn.node) if fn is not we else g
         xt = lambda e, fn=fn: xtext(e, fn.node)  # noqa: E731  (keys and containers compared after alias expansion)
 
@@ -498,9 +620,20 @@ def rule_idemp(ctx) -> RuleResult:
                     continue
                 stack.append(m)
         for node in gg.nodes:
-            if node not in reachable or node.ast is None or isinstance(node.ast, list) or node.kind not in ("stmt",):
+            if node not in reachable or node.ast is None or isinstance(node.ast, list):
+                continue
+            # a helper that works on a node it is handed (get-or-create of a container, ...) is part of the path: its own
+            # creations must be guarded in its own body
+            for c in ast.walk(node.ast if node.kind != "with" else ast.Module(body=[], type_ignores=[])):
+                for callee in writer_callees(c, W, fn.node):
+                    if callee.name not in done and summaries.of(callee):
+                        done.add(callee.name)
+                        todo.append((ctx.view(callee), None))
+            if node.kind not in ("stmt", "return"):
                 continue
             for mnode, base, what, key in mutation_sites_in(node.ast):
+                if what.startswith(".require_"):
+                    continue  # h5py's own get-or-create: creates only what is missing
                 b, k = xt(base), xt(key) if key is not None else None
                 ok = (k, b) in IN.get(node, frozenset())
                 res.inst(f"H5Writer.{fn.name}:{node.lineno} {what} {b}[{k}] guarded by `{k} not in {b}`", nontrivial=True, ok=ok)
